@@ -33,19 +33,27 @@ RULE = (
     "with 0-2 rows replaced and the cursor kept or moved; the most frequent op) / same(the identical canvas object "
     "again) / wdraw(render of a generated depth-2 box-widget tree) / clear() / resize(cols, rows; delivered as "
     "_sigwinch_handler + parse_input consuming the flag, optionally with a draw_screen attempted before the resize "
-    "is handled) / props(set_terminal_properties colours, bright_is_bold) / pal(register_palette_entry, followed by "
-    "clear()) / enc(urwid.set_encoding to one of utf-8, utf8, iso8859-1, ascii, euc-jp while the Screen stays "
+    "is handled) / props(set_terminal_properties colours, bright_is_bold, each also None = leave unchanged) / "
+    "pal(register_palette_entry, followed by clear()) / enc(urwid.set_encoding to one of utf-8, utf8, iso8859-1, ascii, euc-jp while the Screen stays "
     "started, the terminal switched to the same encoding, followed by clear(); 1 op in 12, 4 in 15 in a campaign "
     "of its own; the canvases drawn afterwards are built from the same specs under the new encoding, characters "
     "outside its alphabet replaced by '~'); screen sizes 1..12 x 1..6; colours in {1,16,88,256,2^24}; back_color_erase on/off (terminal BCE on "
     "whenever the screen assumes it); bright_is_bold on/off; alternate buffer or partial-screen mode; palette "
-    "registered before or after set_terminal_properties; starting encodings utf-8 / iso8859-1 / euc-jp. Canvas rows are "
+    "registered before or after set_terminal_properties; starting encodings utf-8 / iso8859-1 / euc-jp. A palette "
+    "entry draws every column over all of its documented values: the 17 / 9 basic colour names or the empty string "
+    "(= default; for a foreground: settings without a colour), mono settings, 'default', '' or None, high-colour "
+    "columns None (= the 16-colour value), a colour valid at 88 / 256 / 2^24, a basic name, 'default' or ''; the "
+    "strings are spelled with ',' or ', ' and with the colour before or after the settings, the tuple given to "
+    "register_palette has all six values or the shortest documented form (3 / 4 values). Canvas rows are "
     "attribute runs (None, palette names incl. aliases registered with the (name, like_name) form, undefined names, "
     "AttrSpec objects of the active depth with every setting) over ASCII, spaces, CJK wide, combining, emoji, DEC "
     "line drawing (charset '0' runs outside utf-8) and C0 controls, completed to the width by a fill character "
-    "(space / narrow / wide / line drawing). Two enumerations of such histories run first: draw / props / redraw "
+    "(space / narrow / wide / line drawing). Three enumerations of such histories run first: draw / props / redraw "
     "for every display setting x the palette field carrying it (basic, mono, high-colour) x every ordered pair of "
-    "colour depths x palette registered before or after set_terminal_properties x back_color_erase (1800), and "
+    "colour depths x palette registered before or after set_terminal_properties x back_color_erase (1800); draw / "
+    "incremental draw for every palette column x every way of saying 'terminal default' in it ('default', '', "
+    "settings only; None for the optional columns, which means something else) x the other optional columns given "
+    "or None x every depth x registration order x back_color_erase, all other columns real colours (540); and "
     "draw / enc / redraw / enc / redraw / mod for every starting encoding x every ordered pair of encodings "
     "switched to x alternate or partial-screen mode (150). html: one canvas spec x colours x palette x cursor. Non-trivial "
     "(history): two consecutive draws at the same size with no clear in between that have at least one unchanged "
@@ -57,7 +65,9 @@ ASSUMPTIONS = [
     "vlib/vtmodel.py (xterm semantics: pending-wrap, IRM insert mode, BCE, SO/SI with G1 = DEC special graphics) "
     "is the reference terminal; wcwidth is its width table",
     "urwid.AttrSpec accessors (foreground_basic/high/true, *_number, bold ... strikethrough) define the meaning of "
-    "an attribute (C18); register_palette_entry's documented depth selection is re-implemented in the check",
+    "an attribute and AttrSpec() parses a colour / settings string, the empty string included (C18); "
+    "register_palette_entry's documented depth selection and its None fall-backs (high-colour column None = the "
+    "16-colour value, mono None = no settings) are re-implemented in the check",
     "TERM=xterm is set in the worker (bg_bright_is_blink off, no fbterm escapes); has_underline is not consulted "
     "by draw_screen; charset 'U' (IBM PC) runs are not generated",
     "the output stream encodes str with the screen encoding (what a TextIO on a terminal in that locale does); "
@@ -101,8 +111,15 @@ HIGH = {
     256: ["#fea", "#009", "g40", "g#cc", "h8", "h255", "#23facc", "h9"],
     2**24: ["#23facc", "#fcc", "g40", "h200", "#000", "#0102fe"],
 }
-# valid at 88, 256 and 2**24 (register_palette_entry builds all three)
-HIGH_COMMON = ["#fcc", "g40", "h8", "h200", "#009", "light red", "default", "#23facc", "h12"]
+# valid at 88, 256 and 2**24 (register_palette_entry builds all three); the last one is the other documented
+# spelling of the terminal default ("An empty string will be treated the same as 'default'", "If the color is not
+# given then 'default' will be assumed"), which is not None ("use foreground / background parameter value")
+HIGH_COMMON = ["#fcc", "g40", "h8", "h200", "#009", "light red", "default", "#23facc", "h12", ""]
+# the 16-colour columns of a palette entry: the documented names and the empty string (appended, so that the
+# indices of recorded cases keep their meaning)
+PAL_FG = [*BASIC_FG, ""]
+PAL_BG = [*BASIC_BG, ""]
+MONO_EMPTY = 64  # mono mask bit: no settings are spelled "" instead of "default"
 SETTINGS = ["bold", "italics", "underline", "blink", "standout", "strikethrough"]
 FLAG_OF = {"bold": "bold", "italics": "italic", "underline": "underline", "blink": "blink", "standout": "reverse",
            "strikethrough": "strike"}
@@ -150,14 +167,33 @@ class Palette:
 
     @staticmethod
     def _strings(e):
-        """palette entry [name, fi, bi, mask, mono_mask|None, hfi|None, hbi|None, hmask] -> the 5 strings"""
-        _name, fi, bi, mask, mono, hfi, hbi, hmask = e
-        fg = ",".join([BASIC_FG[fi % len(BASIC_FG)], *_settings(mask)])
-        bg = BASIC_BG[bi % len(BASIC_BG)]
-        mono_s = None if mono is None else (",".join(_settings(mono)) or "default")
-        fgh = None if hfi is None else ",".join([HIGH_COMMON[hfi % len(HIGH_COMMON)], *_settings(hmask)])
+        """palette entry [name, fi, bi, mask, mono_mask|None, hfi|None, hbi|None, hmask(, spelling)] -> the 5 strings.
+        spelling (absent = 0): bit 0 = ", " between the comma-separated parts (as in AttrSpec's own examples),
+        bit 1 = the colour after the settings instead of in front of them.  A colour "" is one that is not given:
+        the string holds the settings only (and is empty without any)"""
+        _name, fi, bi, mask, mono, hfi, hbi, hmask = e[:8]
+        sp = e[8] if len(e) > 8 else 0
+        sep = ", " if sp & 1 else ","
+
+        def fg_string(colour, settings):
+            colour = [colour] if colour else []
+            return sep.join([*settings, *colour] if sp & 2 else [*colour, *settings])
+
+        fg = fg_string(PAL_FG[fi % len(PAL_FG)], _settings(mask))
+        bg = PAL_BG[bi % len(PAL_BG)]
+        mono_s = None if mono is None else (sep.join(_settings(mono)) or ("" if mono & MONO_EMPTY else "default"))
+        fgh = None if hfi is None else fg_string(HIGH_COMMON[hfi % len(HIGH_COMMON)], _settings(hmask))
         bgh = None if hbi is None else HIGH_COMMON[hbi % len(HIGH_COMMON)]
         return fg, bg, mono_s, fgh, bgh
+
+    @staticmethod
+    def as_tuple(e):
+        """the tuple handed to register_palette: all six values, or (spelling bit 2) the shortest of the documented
+        3 / 4 / 6-value forms that says the same (trailing values that are None left out)"""
+        fg, bg, mono, fgh, bgh = Palette._strings(e)
+        if len(e) > 8 and e[8] & 4 and fgh is None and bgh is None:
+            return (e[0], fg, bg) if mono is None else (e[0], fg, bg, mono)
+        return (e[0], fg, bg, mono, fgh, bgh)
 
     def define(self, e):
         from urwid.display.common import AttrSpec
@@ -168,8 +204,8 @@ class Palette:
         bgh = bg if bgh is None else bgh
 
         def large_h(d):
-            d = d.split(",", 1)[0]
-            return d.startswith("h") and int(d[1:]) > 15
+            # "hN" with N > 15, wherever the colour stands among the comma-separated parts
+            return any(p[:1] == "h" and p[1:].isdigit() and int(p[1:]) > 15 for p in (q.strip() for q in d.split(",")))
 
         self.entries[e[0]] = {
             16: basic,
@@ -586,8 +622,7 @@ def check_history(case):
             plist = []
             for it in items:
                 if it[0] == "entry":
-                    fg, bg, mono, fgh, bgh = Palette._strings(it[1])
-                    plist.append((it[1][0], fg, bg, mono, fgh, bgh))
+                    plist.append(Palette.as_tuple(it[1]))
                 else:
                     plist.append((it[1], it[2]))
             s.register_palette(plist)
@@ -642,9 +677,11 @@ def check_history(case):
                 inc.screen.clear()
                 continue
             elif kind == "props":
-                depth, bib = step[1], step[2]
+                # None: "leave unchanged" (documented for every parameter)
                 for rig in rigs:
-                    rig.screen.set_terminal_properties(colors=depth, bright_is_bold=bib)
+                    rig.screen.set_terminal_properties(colors=step[1], bright_is_bold=step[2])
+                depth = depth if step[1] is None else step[1]
+                bib = bib if step[2] is None else step[2]
                 last_canvas = None
                 continue
             elif kind == "pal":
@@ -795,8 +832,7 @@ def check_html(case):
         pal.define([None, 1, 8, 0, None, None, None, 0])  # HtmlGenerator: None = black on light gray
         for it in palette_items(case.get("palette", [])):
             if it[0] == "entry":
-                fg, bg, mono, fgh, bgh = Palette._strings(it[1])
-                gen.register_palette([(it[1][0], fg, bg, mono, fgh, bgh)])
+                gen.register_palette([Palette.as_tuple(it[1])])
                 pal.define(it[1])
             else:
                 gen.register_palette([(it[1], it[2])])
@@ -921,11 +957,15 @@ def _canvas_spec(enc, undefined=True, controls=True, cursors=False):
 
 @functools.lru_cache(maxsize=None)
 def _pal_entry(names=tuple(NAMES)):
-    return st.tuples(st.sampled_from(names), st.integers(0, 16), st.integers(0, 8),
+    # every column over all of its documented values: the colour names, "" (the last index of each table), None where
+    # the column is optional; then the spelling of the strings / the tuple form (Palette._strings, Palette.as_tuple)
+    high = st.one_of(st.none(), st.sampled_from([*range(len(HIGH_COMMON)), len(HIGH_COMMON) - 1]))
+    return st.tuples(st.sampled_from(names), st.integers(0, len(PAL_FG) - 1), st.integers(0, len(PAL_BG) - 1),
                      st.sampled_from([0, 0, 0, 1, 4, 16, 32, 21, 42, 63]),
-                     st.one_of(st.none(), st.sampled_from([0, 1, 4, 16, 32, 63])),
-                     st.one_of(st.none(), st.integers(0, 8)), st.one_of(st.none(), st.integers(0, 8)),
-                     st.sampled_from([0, 0, 0, 2, 8, 32, 63])).map(list)
+                     st.one_of(st.none(), st.sampled_from([0, 1, 4, 16, 32, 63, MONO_EMPTY])),
+                     high, high,
+                     st.sampled_from([0, 0, 0, 2, 8, 32, 63]),
+                     st.sampled_from([0, 0, 0, 0, 1, 2, 3, 4, 5, 6, 7])).map(list)
 
 
 @functools.lru_cache(maxsize=None)
@@ -958,7 +998,7 @@ def _history_for(enc, controls, widgets, partial, cursors, switches=1):
         st.tuples(st.just("same")),
         st.tuples(st.just("clear")),
         st.tuples(st.just("resize"), _cols, _rows, st.booleans()),
-        st.tuples(st.just("props"), st.sampled_from(DEPTHS), st.booleans()),
+        st.tuples(st.just("props"), st.sampled_from([*DEPTHS, None]), st.sampled_from([False, True, None])),
         st.tuples(st.just("pal"), _pal_entry()),
     ]
     ops += [st.tuples(st.just("enc"), st.sampled_from(SWITCH_ENCS))] * switches
@@ -1181,6 +1221,40 @@ def _palette_sweep():
                             }
 
 
+def _default_spelling_sweep():
+    """every column of a palette entry (foreground, background, mono, foreground_high, background_high) x every
+    documented way of saying "the terminal's default" in it ('default', the empty string, for the two foreground
+    columns also settings without a colour) and, for the optional columns, None (= "use the 16-colour value",
+    "no settings") x the other optional columns given or left None x every colour depth x palette registered before /
+    after set_terminal_properties x back_color_erase; every other column holds a real colour.  A full draw and an
+    incremental one"""
+    d_fg, e_fg = PAL_FG.index("default"), PAL_FG.index("")
+    d_bg, e_bg = PAL_BG.index("default"), PAL_BG.index("")
+    d_hi, e_hi = HIGH_COMMON.index("default"), HIGH_COMMON.index("")
+    real = {"fi": 12, "bi": 5, "mask": 0, "mono": None, "hfi": 0, "hbi": 4, "hmask": 0}
+    variants = []
+    for others in ({}, {"hfi": None, "hbi": None}):
+        variants += [dict(real, **others, fi=v, mask=m) for v, m in ((d_fg, 0), (e_fg, 0), (e_fg, 4))]
+        variants += [dict(real, **others, bi=v) for v in (d_bg, e_bg)]
+    for other in ({}, {"hbi": None}):
+        variants += [dict(real, **other, hfi=v, hmask=m) for v, m in ((d_hi, 0), (e_hi, 0), (e_hi, 4), (None, 0))]
+    for other in ({}, {"hfi": None}):
+        variants += [dict(real, **other, hbi=v) for v in (d_hi, e_hi, None)]
+    variants += [dict(real, mono=v) for v in (0, MONO_EMPTY, 4)]
+    for v in variants:
+        entry = ["a1", v["fi"], v["bi"], v["mask"], v["mono"], v["hfi"], v["hbi"], v["hmask"]]
+        for depth in DEPTHS:
+            for props_first in (True, False):
+                for bce in (True, False):
+                    yield {
+                        "enc": "utf-8", "cols": 5, "rows": 3, "colors": depth, "bib": False, "bce": bce,
+                        "term_bce": True, "alt": True, "props_first": props_first, "palette": [entry],
+                        "steps": [["draw", {"rows": _SWEEP_ROWS, "cursor": None}],
+                                  ["mod", {"edits": [[0, {"segs": [["a1", "d"]], "fill": [None, " "]}]],
+                                           "cursor": "keep"}]],
+                    }
+
+
 _ENC_SWEEP_ROWS = [
     {"segs": [[None, "a┌─┘"]], "fill": [None, " "]},
     {"segs": [["a1", "漢é"]], "fill": ["a1", "─"]},
@@ -1214,6 +1288,10 @@ def _encoding_sweep():
 def shard(ctx):
     ctx.sweep("history", _palette_sweep(), nontrivial=_history_nontrivial, classify=_history_classes,
               exhaustive_name="history: setting x palette field x depth pair x registration order x bce")
+    if ctx.failure is None:
+        ctx.sweep("history", _default_spelling_sweep(), nontrivial=_history_nontrivial, classify=_history_classes,
+                  exhaustive_name="history: palette column x spelling of the default colour x optional columns x "
+                                  "depth x registration order x bce")
     if ctx.failure is None:
         ctx.sweep("history", _encoding_sweep(), nontrivial=_history_nontrivial, classify=_history_classes,
                   exhaustive_name="history: starting encoding x two encoding switches x screen mode")
